@@ -10,7 +10,7 @@ from ..oracles import KEYS
 ID, TITLE, LEVEL = 'C11', 'windowed conversion', 'exploration'
 RULE = ('case = one generated regular SEG-Y (up to 12 x 40 traces, IBM/IEEE, header model content) x a list of ordinal windows '
         '(min_il, max_il, min_xl, max_xl) stratified on {lower bound 0 / > 0} per axis and {upper bound = n / < n}, window and '
-        'full trace counts padding to equal and to different 512-byte footer strides x reduce_iops on/off x detection mode x API/CLI; '
+        'full trace counts padding to equal and to different 512-byte footer strides x reduce_iops on/off x detection mode x API/CLI x machine memory {real, just enough for one inline set of the window}; '
         'the harness writes a second SEG-Y holding only the windowed traces and converts it the same way; the two SGZ files must '
         'agree in dimensions, axes, trace count, every sample read, every header of every trace (and file length for thorough / '
         'exhaustive), and the windowed file must be the per-cell ZFP image of the sub-cube and pass conformance. distinct = '
@@ -57,7 +57,9 @@ def run_case(case, ctx):
     bad, strata = [], set()
     npairs = 0
     inside = gen.heuristic_precondition(H)
-    for (a, b, c, d) in case['windows']:
+    for wi, (a, b, c, d) in enumerate(case['windows']):
+        # every other window: a machine whose memory just holds one inline set of the WINDOW (and of the sub-cube converted alone)
+        mem = 2 * conv.resolve_bs(rate, bs)[0] * (d - c) * nZ * 4 if wi % 2 == 1 and case['route'] == 'api' else None
         wcls = 'il0:%s,xl0:%s' % ('zero' if a == 0 else 'pos', 'zero' if c == 0 else 'pos')
         wname = sc.file('w.sgz')
         sname = sc.file('s.sgz')
@@ -71,15 +73,17 @@ def run_case(case, ctx):
                 pr = (8 if rate != 8 else 4, (4, 4, -1), 'exhaustive') if int(case['id'].split(':')[1]) % 3 == 2 else None
                 if pr:
                     strata.add('converter-reused')
-                conv.convert_segy(src['path'], wname, rate, bs, reduce_iops=case['reduce_iops'], detection=det, window=(a, b, c, d), prerun=pr)
+                conv.convert_segy(src['path'], wname, rate, bs, reduce_iops=case['reduce_iops'], detection=det, window=(a, b, c, d), prerun=pr, mem_limit=mem)
             else:
                 conv.convert_cli_inproc(src['path'], wname, rate, conv.resolve_bs(rate, bs), reduce_iops=case['reduce_iops'], window=(a, b, c, d))
         except Exception as e:  # noqa
             bad.append({'sig': 'window:%s:conversion-raises-%s' % ('iops' if case['reduce_iops'] else 'segyio', type(e).__name__),
                         'detail': 'window %s of %s (%s): %r' % ((a, b, c, d), (nI, nX), wcls, e)})
             continue
-        conv.convert_segy(sub, sname, rate, bs, reduce_iops=False, detection=det)
+        conv.convert_segy(sub, sname, rate, bs, reduce_iops=False, detection=det, mem_limit=mem)
         npairs += 1
+        if mem is not None and d - c < nX:
+            strata.add('memory-fits-window-only')
         strata.update(['sorting:%d' % case['src'].get('sorting', 2), 'win:' + wcls, 'reader:' + ('iops' if case['reduce_iops'] else 'segyio'), 'mode:' + det, 'route:' + case['route'],
                        'upper:%s' % ('full' if (b, d) == (nI, nX) else 'inner'),
                        'stride:%s' % ('same' if oracles.pad(4 * nI * nX, 512) == oracles.pad(4 * (b - a) * (d - c), 512) else 'different')])
@@ -127,7 +131,7 @@ def run_case(case, ctx):
 def finalize(tier, cases, results, counters, strata):
     reasons = []
     need = ['win:il0:zero,xl0:zero', 'win:il0:zero,xl0:pos', 'win:il0:pos,xl0:zero', 'win:il0:pos,xl0:pos', 'reader:iops', 'reader:segyio',
-            'mode:thorough', 'mode:heuristic', 'mode:exhaustive', 'route:api', 'route:cli', 'upper:full', 'upper:inner', 'sorting:1', 'sorting:2', 'converter-reused']
+            'mode:thorough', 'mode:heuristic', 'mode:exhaustive', 'route:api', 'route:cli', 'upper:full', 'upper:inner', 'sorting:1', 'sorting:2', 'converter-reused', 'memory-fits-window-only']
     for s in need:
         if s not in strata:
             reasons.append('required stratum not hit: ' + s)
